@@ -237,7 +237,10 @@ public:
         if (_limit == MAX_LIMIT)
             return;
 
-        ++_quota;
+        // an operation that completes while resend() is re-queueing packets
+        // must not raise the quota above the freshly reset limit
+        if (_quota < _limit)
+            ++_quota;
         do_write();
     }
 
